@@ -68,6 +68,13 @@ var glSpecs = []glSpec{
 	{"range-cache", "Range", "isValidFor", "rangeIsValidFor"},
 	{"split-car-fetcher", "", "min", "scfMin"},
 	{"split-car-fetcher", "", "max", "scfMax"},
+	{"deprecated/compactindex", "", "searchEytzinger", "l8SearchEytzinger"},
+	{"deprecated/compactindex", "", "hashUint64", "l8HashUint64"},
+	{"deprecated/compactindex", "Header", "BucketHash", "l8BucketHash"},
+	{"deprecated/compactindex36", "", "searchEytzinger", "l36SearchEytzinger"},
+	{"deprecated/compactindex36", "", "hashUint64", "l36HashUint64"},
+	{"deprecated/compactindex36", "Header", "BucketHash", "l36BucketHash"},
+	{"deprecated/bucketteer", "", "searchEytzinger", "bk1SearchEytzinger"},
 	{"slottools", "", "CalcEpochForSlot", "calcEpochForSlotM"},
 	{"slottools", "", "EpochForSlot", "epochForSlot"},
 	{"slottools", "", "Uint64ToLEBytes", "uint64ToLEBytes"},
